@@ -3,6 +3,7 @@ pub mod asm;
 pub mod exec;
 pub mod mon_access;
 pub mod mon_flow;
+pub mod mon_gas;
 pub mod mon_kv;
 pub mod mon_ledger;
 pub mod mon_mem;
@@ -73,7 +74,7 @@ impl Engine for VmEngine {
                     }
                 }
             }
-            "C24" | "C25" | "C27" | "C30" | "C33" | "C34" => observe_run::run(prop, &world, sc, ctx),
+            "C24" | "C25" | "C26" | "C27" | "C30" | "C33" | "C34" => observe_run::run(prop, &world, sc, ctx),
             _ => {}
         }
     }
@@ -229,7 +230,7 @@ fn describe(prop: &str) -> EngineDescription {
 
 pub static VM: EngineDef = EngineDef {
     name: "vm",
-    props: &["C24", "C25", "C27", "C28", "C29", "C30", "C31", "C32", "C33", "C34"],
+    props: &["C24", "C25", "C26", "C27", "C28", "C29", "C30", "C31", "C32", "C33", "C34"],
     generate: gen_erased::<VmEngine>,
     run: run_erased::<VmEngine>,
     shrink: shrink_erased::<VmEngine>,
@@ -241,7 +242,7 @@ pub static VM: EngineDef = EngineDef {
         "C28" => (15_000, 500_000),
         "C29" => (30_000, 800_000),
         "C24" => (8_000, 300_000),
-        "C25" | "C27" | "C30" | "C33" | "C34" => (10_000, 400_000),
+        "C25" | "C26" | "C27" | "C30" | "C33" | "C34" => (10_000, 400_000),
         _ => (20_000, 500_000),
     },
 };
